@@ -46,6 +46,20 @@ func (m *unExportedVarMocker) String() string {
 	return fmt.Sprintf("var at[%d]", m.target)
 }
 
+// Apply 变量取值回调函数, 只会执行一次
+// 变量类型取回调函数的返回值类型, 因此不能使用 defaultVarMocker.Apply(此时 targetValue 还未确定)
+func (m *unExportedVarMocker) Apply(callback interface{}) {
+	f := reflect.ValueOf(callback)
+	if f.Kind() != reflect.Func {
+		panic("VarMock Apply argument(callback) must be a func.")
+	}
+	ret := f.Call([]reflect.Value{})
+	if ret == nil || len(ret) != 1 {
+		panic("VarMock Apply callback's returns length must be 1.")
+	}
+	m.Set(ret[0].Interface())
+}
+
 // Set 设置变量值
 // value 变量值, 必须和变量原值的类型一致，否则会出现不可预测的异常行为
 //  1. 可以是指针类型，
